@@ -259,3 +259,8 @@ let register_c09 reg =
     | [iv; times; values; st; dr; ex] -> show_bool (c09_ok (zv iv) (zlist times) (zlist values) (zv st) (zv dr) (bv ex))
     | _ -> failwith "arity")
 let () = section register_c09
+
+(* ---- C05 *)
+let register_c05 reg =
+  reg "c05_ok" (function (a :: b :: c :: d :: e :: _) -> show_bool (c05_ok (zv a) (zv b) (zv c) (zv d) (zv e)) | _ -> failwith "arity")
+let () = section register_c05
